@@ -140,6 +140,13 @@ def check_result(out, las, base, junk_lines, tag, text, mode):
                 out.fail("other-text-changed|" + tag, "%r vs %r\n%s" % (sec, res, text))
             continue
         ok, n = is_subsequence(sec["items"], res.get("items", []))
+        extra = len(res.get("items", [])) - len(sec["items"])
+        if ok and extra > len(junk_lines):
+            # a junk line may be read as an item of its own, but it cannot make a section take up lines of the sections
+            # behind it: there are at most as many additional items as junk lines
+            out.fail("section-swallowed-foreign-lines|%s|%s" % (name if name in ("Version", "Well", "Curves", "Parameter") else "custom", tag),
+                     "section %s has %d items more than without the %d junk line(s): %r\njunk=%r\n%s"
+                     % (name, extra, len(junk_lines), [key(i) for i in res.get("items", [])], junk_lines, text))
         if not ok:
             g = sec["items"][n]
             out.fail("genuine-item-changed|%s|%s" % (name if name in ("Version", "Well", "Curves", "Parameter") else "custom", tag),
